@@ -132,7 +132,7 @@ def handles_ok(ops, form) -> bool:
     for op in ops:
         if op[0] == "nin":
             stack.append(op[1])
-        elif op[0] == "nout":
+        elif op[0] in ("nout", "nfail"):
             if len(stack) > 1:
                 stack.pop()
         elif op[0] in ("commit", "rollback") and "ctx" not in stack:
@@ -265,7 +265,7 @@ def oracle(case, res):
     durable = {}                                    # tid -> the increments its commits made durable (None: own_writes_only already failed)
     for tid, p in enumerate(progs):
         st = steps[tid]
-        flat = [op for op in p["ops"] if op[0] not in ("nin", "nout", "sleep", "gc") and not (p["kind"] == "plain" and op[0] in ("commit", "rollback"))]
+        flat = [op for op in p["ops"] if op[0] not in ("nin", "nout", "nfail", "sleep", "gc") and not (p["kind"] == "plain" and op[0] in ("commit", "rollback"))]
         diffs = [(lab, {k: a.get(k) for k in set(b) | set(a) if a.get(k) != b.get(k)}) for lab, b, a, _, _, _ in st]
         if p["kind"] == "plain" and tid in cancelled_at:
             # a task outside any transaction that was cancelled: what it did before went straight to the store; nothing afterwards
@@ -537,6 +537,22 @@ def oracle(case, res):
             stats["plain_inside_tx_window"] = 1
         if any(op[0] == "nin" for op in progs[tid]["ops"]):
             stats["nested_block"] = 1
+        if any(op[0] == "nfail" for op in progs[tid]["ops"]):
+            # an inner block left by an exception that the enclosing body caught - did the body get that far, and did it return then?
+            ops_t = progs[tid]["ops"]
+            last = max(j for j, op in enumerate(ops_t) if op[0] == "nfail")
+            reached = outs[tid].startswith("ret:") or (outs[tid].startswith("raise:") and outs[tid] != "raise:locked"
+                                                        and any(op[0] == "raise" for op in ops_t[last:]))
+            if reached:
+                stats["inner_block_failed_and_outer_body_caught_it"] = 1
+            if outs[tid].startswith("ret:"):
+                stats["body_returned_after_a_caught_inner_failure"] = 1
+                if any(l.startswith(("set_many:", "delete_many:")) for l in labs):
+                    stats["commit_after_a_caught_inner_failure"] = 1
+                if any(op[0] == "nin" and op[1] == "dec" for op in ops_t):
+                    stats["caught_failure_of_a_nested_decorated_call"] = 1
+                if any(op[0] == "nin" and op[1] == "ctx" for op in ops_t):
+                    stats["caught_failure_of_a_nested_context_manager_block"] = 1
         if outs[tid] == "raise:body" and any(l.startswith("unlock:") for l in labs):
             stats["raise_with_locks"] = 1
         if outs[tid] in ("raise:falsy", "raise:falsybase") and any(l.startswith("unlock:") for l in labs):
@@ -621,7 +637,7 @@ def sanitize(ops):
     """keep nin/nout balanced after ops were removed"""
     out, depth = [], 0
     for op in ops:
-        if op[0] == "nout":
+        if op[0] in ("nout", "nfail"):
             if depth == 0:
                 continue
             depth -= 1
@@ -796,6 +812,26 @@ def exhaustive_families():
                      f"tx.commit(), against a plain reader",
                      {0: 1}, [tx(mode, [["set", 1, 5], ["nin", "ctx"], ["commit"], ["incr", 0, 1], ["raise", "falsy"], ["nout"]], "dec", 40),
                               plain([["get", 1], ["get", 0]])], True))
+    for mode in ("fast", "locked", "serializable"):
+        # an INNER block (nested `async with`, or a decorated call made from inside the transaction) is left by an exception that the
+        # enclosing body catches: nested blocks are flat - the transaction is not marked by the failure, and a body that then finishes
+        # normally commits everything it buffered (the failed inner block's writes included)
+        fams.append((f"{mode}: set, incr, a nested context-manager block that writes and FAILS (caught by the body), incr, set - the body "
+                     f"returns - against an incrementing decorated call",
+                     {0: 1}, [tx(mode, [["set", 1, 5], ["incr", 0, 1], ["nin", "ctx"], ["set", 2, 7], ["nfail"], ["incr", 0, 1], ["set", 3, 9]], "ctx", 40),
+                              tx(mode, [["incr", 0, 4]], "dec", 40)], True))
+        fams.append((f"{mode}: two calls of one decorated function, each incrementing, calling a decorated helper that increments and FAILS "
+                     f"(caught, a falsy Exception), then writing a flag",
+                     {}, [tx(mode, [["incr", 0, 1], ["nin", "dec"], ["incr", 0, 2], ["nfail", "falsy"], ["set", 1, 1]], "dec", 40),
+                          tx(mode, [["incr", 0, 1], ["nin", "dec"], ["incr", 0, 2], ["nfail", "falsy"], ["set", 2, 1]], "dec", 40)], mode != "locked"))
+        fams.append((f"{mode}: CANCEL anywhere: a decorated call whose nested block deletes and FAILS with a non-Exception BaseException "
+                     f"(caught), then incr, against a plain writer",
+                     {0: 1, 2: 3}, [tx(mode, [["set", 1, 5], ["nin", "ctx"], ["del", 2], ["nfail", "base"], ["incr", 0, 1]], "dec", 40),
+                                    plain([["set", 2, 8]])], True, 1))
+        fams.append((f"{mode}: a caught failure of a nested decorated call, tx.commit(), a second caught failure, then the body raises",
+                     {0: 1}, [tx(mode, [["nin", "dec"], ["incr", 0, 1], ["nfail"], ["commit"], ["nin", "ctx"], ["set", 1, 2], ["nfail", "falsybase"],
+                                        ["incr", 0, 1], ["raise"]], "ctx", 40),
+                              tx(mode, [["incr", 0, 4]], "dec", 40)], mode != "locked"))
     fams.append(("locked: a body raising a BaseException that is not an Exception while holding two locks, against a waiting call",
                  {0: 1}, [tx("locked", [["incr", 0, 1], ["set", 1, 2], ["raise", "base"]], "ctx", 40), tx("locked", [["incr", 0, 2]], "dec", 40)], True))
     fams.append(("locked: opposite lock order with a short timeout (deadlock broken by LockedError)",
@@ -810,6 +846,12 @@ def exhaustive_families():
                  {0: 1}, [tx("locked", [["incr", 0, 1]], "dec", 40), tx("locked", [["incr", 0, 2]], "dec", 40),
                           tx("locked", [["incr", 0, 4]], "dec", 40)], False))
     return fams
+
+
+def closer(rng):
+    """how a nested block ends: its body runs to its end, or (2 in 5) it is left by an exception that the enclosing body catches"""
+    r = rng.random()
+    return ["nout"] if r < 0.6 else ["nfail"] if r < 0.8 else ["nfail", rng.choice(["base", "falsy", "falsybase"])]
 
 
 def gen_ops(rng, in_tx: bool, nmax: int, form: str = "ctx"):
@@ -842,9 +884,9 @@ def gen_ops(rng, in_tx: bool, nmax: int, form: str = "ctx"):
             ops.append(["nin", rng.choice(["ctx", "dec"])])
             stack.append(ops[-1][1])
         elif in_tx and len(stack) > 1:
-            ops.append(["nout"])
+            ops.append(closer(rng))
             stack.pop()
-    return ops + [["nout"]] * (len(stack) - 1)
+    return ops + [closer(rng) for _ in range(len(stack) - 1)]
 
 
 def gen_case(rng, ntasks_max: int, style: int):
@@ -855,7 +897,7 @@ def gen_case(rng, ntasks_max: int, style: int):
     programs = []
     for i in range(n):
         if i > 0 and rng.random() < 0.2:
-            programs.append(plain([op for op in gen_ops(rng, False, 4) if op[0] not in ("nin", "nout", "commit", "rollback")]))
+            programs.append(plain([op for op in gen_ops(rng, False, 4) if op[0] not in ("nin", "nout", "nfail", "commit", "rollback")]))
             continue
         mode = mode0 if uniform else rng.choice(["fast", "locked", "serializable"])
         to = to0 if uniform or rng.random() < 0.5 else rng.choice([20, 40, 400])
@@ -871,7 +913,8 @@ def gen_case(rng, ntasks_max: int, style: int):
                            ["commit"] if r < 0.93 else ["rollback"] if r < 0.96 else ["raise"] if r < 0.97 else ["raise", "falsy"] if r < 0.98 else
                            ["raise", "base"] if r < 0.99 else ["raise", "falsybase"])
             if rng.random() < 0.3:
-                ops = [["nin", rng.choice(["dec", "ctx"])]] + ops + [["nout"]]
+                cut = rng.randint(0, len(ops))     # the nested block ends somewhere in the body, by a return or by a caught exception
+                ops = [["nin", rng.choice(["dec", "ctx"])]] + ops[:cut] + [closer(rng)] + ops[cut:]
             if not handles_ok(ops, form):
                 ops = [op for op in ops if op[0] not in ("commit", "rollback")]
         else:
